@@ -37,7 +37,8 @@ Record sb_facts := {
   sbf_ref_get_checked : bool;                 (* Reference::Get reads with sandboxed = true *)
   sbf_indexer_noinit : bool;                  (* IndexerExpression::GetReference never auto-creates in sandbox *)
   sbf_frame_inherit : bool;                   (* nested frames inherit Sandboxed *)
-  sbf_userfunc_unsafe : bool                  (* script-defined functions are not side-effect-free *)
+  sbf_userfunc_unsafe : bool;                 (* script-defined functions are not side-effect-free *)
+  sbf_var_import_checked : bool               (* FindVarImport (bare identifier via a `using` import) reads through the checking GetField *)
 }.
 
 (* ------------------------------------------------------------------ syntax *)
@@ -49,7 +50,7 @@ Inductive sb_lit := SbLEmpty | SbLBool (b : bool) | SbLNum | SbLStr (s : sb_name
 
 Inductive sb_expr :=
 | SbLiteral (l : sb_lit)
-| SbVariable (n : sb_name)
+| SbVariable (n : sb_name) (imports : list sb_expr)   (* imports: the `using` expressions in scope (+ the built-in ones) *)
 | SbGetScope (sc : sb_scope)
 | SbRef (e : sb_expr)
 | SbDeref (e : sb_expr)
@@ -163,7 +164,7 @@ Definition sb_all_binops : list sb_binop :=
 
 Definition sb_class_name (e : sb_expr) : sb_name :=
   match e with
-  | SbLiteral _ => sb_n_Literal | SbVariable _ => sb_n_Variable | SbGetScope _ => sb_n_GetScope
+  | SbLiteral _ => sb_n_Literal | SbVariable _ _ => sb_n_Variable | SbGetScope _ => sb_n_GetScope
   | SbRef _ => sb_n_Ref | SbDeref _ => sb_n_Deref | SbNegate _ => sb_n_Negate
   | SbLogicalNegate _ => sb_n_LogicalNegate | SbBinary op _ _ => sb_binop_name op
   | SbIn _ _ => sb_n_In | SbNotIn _ _ => sb_n_NotIn | SbLogicalAnd _ _ => sb_n_LogicalAnd
@@ -223,7 +224,10 @@ Record sb_st := {
   sbs_choices : list sb_choice                (* input: what opaque computations yield *)
 }.
 
-Record sb_frame := { sbfr_sandboxed : bool; sbfr_self : sb_val; sbfr_locals : option sb_val }.
+(* [sbfr_top]: the Sandboxed flag of the frame that is on TOP of the thread's frame stack while code runs in this frame
+   (ScriptFrame::InitializeFrame: a new frame inherits from the stack top, not from the frame it is evaluated in).  For a
+   frame that is itself the top the two flags coincide; a frame pushed above the user's frame makes them differ. *)
+Record sb_frame := { sbfr_sandboxed : bool; sbfr_top : bool; sbfr_self : sb_val; sbfr_locals : option sb_val }.
 
 Definition sb_M (A : Type) := sb_st -> sb_r A * sb_st.
 Definition sb_ret {A} (a : A) : sb_M A := fun s => (SbROk a, s).
@@ -424,7 +428,7 @@ Definition sb_class_of (n : sb_name) : sb_class :=
   else if sb_mem n sb_pure_names then SbPure
   else SbMutating.
 
-Definition sb_inherit (F : sb_facts) (fr : sb_frame) : bool := sbf_frame_inherit F && sbfr_sandboxed fr.
+Definition sb_inherit (F : sb_facts) (fr : sb_frame) : bool := sbf_frame_inherit F && sbfr_top fr.
 
 (* ------------------------------------------------------------------ the evaluator *)
 Section SbStep.
@@ -472,8 +476,21 @@ Section SbStep.
         end
     end.
 
+  (* VMOps::FindVarImport(Ref): the first import whose value has an own field of that name *)
+  Fixpoint sb_find_import (fr : sb_frame) (n : sb_name) (imports : list sb_expr) : sb_M (option sb_val) :=
+    match imports with
+    | [] => sb_ret None
+    | i :: r =>
+        v <- ev fr i ;;
+        match v with
+        | SbVObj _ _ => c <- sb_fields v ;;
+                        match sb_assoc n c with Some _ => sb_ret (Some v) | None => sb_find_import fr n r end
+        | _ => sb_fail SbEOther
+        end
+    end.
+
   (* VariableExpression::DoEvaluate: locals, own field of Self (GetOwnField - no sandbox test), imports, globals *)
-  Definition sb_var_read (fr : sb_frame) (n : sb_name) : sb_M sb_val :=
+  Definition sb_var_read (fr : sb_frame) (n : sb_name) (imports : list sb_expr) : sb_M sb_val :=
     lv <- match sbfr_locals fr with Some (SbVObj ty o) => sb_raw_read F ty o n | _ => sb_ret None end ;;
     match lv with
     | Some x => sb_ret x
@@ -481,15 +498,23 @@ Section SbStep.
         sv <- match sbfr_self fr with SbVObj ty o => sb_raw_read F ty o n | _ => sb_ret None end ;;
         match sv with
         | Some x => sb_ret x
-        | None => gv <- sb_raw_read F sb_t_Namespace (SbShared 0) n ;;
-                  match gv with Some x => sb_ret x | None => sb_fail SbEOther end
+        | None =>
+            iv <- sb_find_import fr n imports ;;
+            match iv with
+            | Some (SbVObj ty o) =>
+                if sbf_var_import_checked F then sb_getfield F (sbfr_sandboxed fr) (SbVObj ty o) n
+                else r <- sb_raw_read F ty o n ;; sb_ret (match r with Some x => x | None => SbVEmpty end)
+            | Some _ => sb_fail SbEOther
+            | None => gv <- sb_raw_read F sb_t_Namespace (SbShared 0) n ;;
+                      match gv with Some x => sb_ret x | None => sb_fail SbEOther end
+            end
         end
     end.
 
   (* Expression::GetReference *)
   Fixpoint sb_getref (fr : sb_frame) (init : bool) (e : sb_expr) : sb_M (option (sb_val * sb_name)) :=
     match e with
-    | SbVariable n =>
+    | SbVariable n imports =>
         lc <- match sbfr_locals fr with Some l => sb_fields l | None => sb_ret [] end ;;
         match sb_assoc n lc, sbfr_locals fr with
         | Some _, Some l => sb_ret (Some (l, n))
@@ -497,11 +522,16 @@ Section SbStep.
             sc <- sb_fields (sbfr_self fr) ;;
             match sb_assoc n sc with
             | Some _ => sb_ret (Some (sbfr_self fr, n))
-            | None => gc <- sb_fields sb_globals_val ;;
-                      match sb_assoc n gc with
-                      | Some _ => sb_ret (Some (sb_globals_val, n))
-                      | None => sb_ret (Some (sbfr_self fr, n))
-                      end
+            | None =>
+                iv <- sb_find_import fr n imports ;;
+                match iv with
+                | Some v => sb_ret (Some (v, n))
+                | None => gc <- sb_fields sb_globals_val ;;
+                          match sb_assoc n gc with
+                          | Some _ => sb_ret (Some (sb_globals_val, n))
+                          | None => sb_ret (Some (sbfr_self fr, n))
+                          end
+                end
             end
         end
     | SbIndexer a b =>
@@ -530,14 +560,14 @@ Section SbStep.
   Definition sb_guarded (e : sb_expr) : bool := sb_lookupb (sb_class_name e) (sbf_exprs F).
 
   Definition sb_sub_frame (fr : sb_frame) (self : sb_val) (locals : option sb_val) : sb_frame :=
-    {| sbfr_sandboxed := sb_inherit F fr; sbfr_self := self; sbfr_locals := locals |}.
+    {| sbfr_sandboxed := sb_inherit F fr; sbfr_top := sb_inherit F fr; sbfr_self := self; sbfr_locals := locals |}.
 
   (* <X>Expression::DoEvaluate *)
   Definition sb_step (n : nat) (fr : sb_frame) (e : sb_expr) : sb_M sb_val :=
     if sbfr_sandboxed fr && sb_guarded e then sb_fail SbESandbox else
     match e with
     | SbLiteral l => sb_ret (sb_lit_val l)
-    | SbVariable x => sb_var_read fr x
+    | SbVariable x imports => sb_var_read fr x imports
     | SbGetScope SbScopeLocal => sb_ret (match sbfr_locals fr with Some l => l | None => SbVEmpty end)
     | SbGetScope SbScopeThis => sb_ret (sbfr_self fr)
     | SbGetScope SbScopeGlobal => sb_ret sb_globals_val
@@ -582,7 +612,8 @@ Section SbStep.
     | SbDict true es => sb_seq fr es SbVEmpty
     | SbDict false es =>
         d <- sb_alloc sb_t_Dictionary [] ;;
-        sb_seq {| sbfr_sandboxed := sbfr_sandboxed fr; sbfr_self := d; sbfr_locals := sbfr_locals fr |} es SbVEmpty ;;;
+        sb_seq {| sbfr_sandboxed := sbfr_sandboxed fr; sbfr_top := sbfr_top fr; sbfr_self := d;
+                  sbfr_locals := sbfr_locals fr |} es SbVEmpty ;;;
         sb_ret d
     | SbSet combined lhs rhs =>
         r <- sb_getref fr true lhs ;;
@@ -716,6 +747,13 @@ Definition sb_container_mutators : list sb_name := Eval vm_compute in
               "Dictionary#remove"; "Dictionary#clear"; "Dictionary#freeze"; "Namespace#set"; "Namespace#remove";
               "Reference#set"; "ConfigObject#modify_attribute"; "ConfigObject#restore_attribute";
               "Checkable#process_check_result"]%string.
+
+(* read paths: the only accessor without the no_user_view test that the interpreter may use is GetOwnField on frame.Self
+   in VariableExpression::DoEvaluate (modelled: [sb_raw_read] on Self, harmless because Self is a container) *)
+Definition sb_n_VarDoEvaluate := Eval vm_compute in sb_enc "VariableExpression::DoEvaluate"%string.
+Definition sb_n_GetOwnField := Eval vm_compute in sb_enc "GetOwnField"%string.
+Definition sb_raw_reads_expected (raw : list (sb_name * sb_name)) : bool :=
+  forallb (fun p => (fst p =? sb_n_VarDoEvaluate) && (snd p =? sb_n_GetOwnField)) raw.
 
 (* the types frames use as Self have no hidden fields *)
 Definition sb_containers_clean (F : sb_facts) : bool :=
